@@ -612,14 +612,14 @@ PROPS = {
         "assumptions": ["the theorem is about Renamer::rename_with_raw_names; the ParsedPacket wrapper re-parses its result (accepted by the theorem) and asserts the EDNS summary is unchanged - that assert is covered by correspondence (C08 scripts), not by this theorem"],
     },
     "C08": {
-        "module": "DnsModel.Theorems.C08Seq", "theorems": ["Dns.C08.run_inv", "Dns.C08.step_inv", "Dns.C08.inv_start", "Dns.C08.consistent_view", "Dns.C08.consistent_counts", "Dns.C08.after_decompression", "Dns.C08.recompute_consistent", "Dns.C08.iter_uncompress_consistent", "Dns.C08.first_touch_consistent", "Dns.C08.insert_answer_consistent", "Dns.C08.insert_authority_consistent", "Dns.C08.insert_additional_consistent", "Dns.C08.delete_consistent", "Dns.C08.set_ttl_consistent", "Dns.C08.set_ip_consistent", "Dns.C08.set_name_consistent", "Dns.C08.header_consistent", "Dns.C08.rename_fresh", "Dns.C08.question_read", "Dns.C08.PlainObj.pointerFree", "Dns.EdnsOK.matches_parse", "Dns.PlainObj.parse_info", "Dns.ednsOf_of_run", "Dns.ednsOK_replace", "Dns.ednsOK_remove", "Dns.ednsOK_remove_opt"],
+        "module": "DnsModel.Theorems.C08Seq", "theorems": ["Dns.C08.run_total", "Dns.C08.step_total", "Dns.C08.run_inv", "Dns.C08.step_inv", "Dns.C08.inv_start", "Dns.C08.consistent_view", "Dns.C08.consistent_counts", "Dns.C08.after_decompression", "Dns.C08.recompute_consistent", "Dns.C08.iter_uncompress_consistent", "Dns.C08.first_touch_consistent", "Dns.C08.insert_answer_consistent", "Dns.C08.insert_authority_consistent", "Dns.C08.insert_additional_consistent", "Dns.C08.delete_consistent", "Dns.C08.set_ttl_consistent", "Dns.C08.set_ip_consistent", "Dns.C08.set_name_consistent", "Dns.C08.header_consistent", "Dns.C08.rename_fresh", "Dns.C08.question_read", "Dns.C08.PlainObj.pointerFree", "Dns.EdnsOK.matches_parse", "Dns.PlainObj.parse_info", "Dns.ednsOf_of_run", "Dns.ednsOK_replace", "Dns.ednsOK_remove", "Dns.ednsOK_remove_opt"],
         "families": [{"name": "script-boundary", "quick": 0, "thorough": 0, "fixed": True}, {"name": "script", "quick": 2500, "thorough": 100000}],
         "oracle": oracle_c08, "nontrivial": nontrivial_script, "shrink": False,
         "rule": "scripts of 1-6 macro operations (open/advance/act/observe/advance, header setters, text insertion, question insertion, rename, recompute, cache reads) over accepted packets in 4 layouts with/without OPT and over empty(); state observed after every operation; non-trivial = distinct scripts with at least one successful mutating operation",
         "level": "proof",
         "explanation": "theorems: the invariant Consistent (plain object = header + question + three lists of canonical record pieces with the section starts and counts that follow from them; may-contain-pointers flag cleared; question cache empty or right; EDNS summary = the one the additional pieces determine) implies (consistent_view) that the bytes are accepted by the parser and that a fresh parse reports exactly the object's section starts and EDNS summary (position and count of options, extended rcode, version, flags, payload size), that header counts = numbers of records, absent start iff empty section, bytes pointer-free, cached question = uncached question. It holds after decompression / recompute / in-place decompression through an iterator / the decompress-first step of any accepted packet and is preserved by insert (3 sections), delete (the OPT record included: summary cleared), set_rr_ttl, set_rr_ip, set_raw_name (after which the cursor still designates the record and next yields the one that followed), and the five header setters; a successful object-level rename leaves exactly the view of a fresh parse. "
                        "correspondence: state-machine model (packet object + one cursor) of every mutator; after every operation of every script the real object's bytes, public fields, cache and cursor equal the model's, and the oracle re-derives the view from the bytes alone",
-        "assumptions": ["sequences: Theorems/C08Seq.lean defines the script semantics applyOp/run (object + at most one open record-section iterator: open, next, close, delete, set TTL / address / owner name, insert, the five header setters, recompute), the invariant Inv (= Consistent + the cursor is void or stands on a record of its section) and the preconditions Allowed (cursor on a record for TTL/address, well-formed name and record, QR gating, not the OPT record: the by-design exclusions); run_inv: every run of allowed operations that returns ends in a state satisfying Inv; panic-freedom of the mutators is not part of the statement",
+        "assumptions": ["sequences: Theorems/C08Seq.lean defines the script semantics applyOp/run (object + at most one open record-section iterator: open, next, close, delete, set TTL / address / owner name, insert, the five header setters, recompute), the invariant Inv (= Consistent + the cursor is void or stands on a record of its section) and the preconditions Allowed (cursor on a record for TTL/address, well-formed name and record, QR gating, not the OPT record: the by-design exclusions); run_total: from a state satisfying Inv every finite script of allowed operations runs to the end - no panic, no divergence, no internal error - and ends in a state satisfying Inv (run_inv is the partial-correctness half)",
                         "excluded by hypothesis (known findings, by design): question insertion/deletion (KF1, KF4), OPT as the target of set-name/set-TTL (KF5), clearing QR with answers present (KF3); in-place setters on a still-compressed object (KF2) are covered by the script correspondence only"],
     },
     "C09": {
@@ -759,7 +759,7 @@ MANIFEST_TEXT = {
             "note": NOTE, "technique": "Lean 4 proof (dictionary invariant, emission lemmas, case-fold comparison soundness, parametricity in the output) + model/implementation correspondence + reference decoder oracle"},
     "C07": {"text": "Lean theorems for every accepted packet, every well-formed pointer-free non-root source/target and both modes: the renamer (model: replace_raw, per-type data lengths, OPT in place, the compressor's dictionary) either returns a packet that satisfies the acceptance policy, keeps the header bytes, counts and record order, and whose question, owner names and NS/CNAME/PTR/MX/SOA names are exactly the renamings of the input's (a name, or in suffix mode a suffix on a label boundary, equal to the source up to case is replaced by the target; every other name kept) up to ASCII case with all other bytes incl. OPT identical, or fails with InvalidName because a renamed name would exceed 255 bytes; self-renaming never fails and changes nothing up to case. Real output byte-identical to the model's; oracle compares the decoded result with the specified renaming of the decoded input (matches at every depth, near-misses, case, growth past 255).",
             "note": NOTE, "technique": "Lean 4 proof (replace_raw characterisation, rename relation, compressor invariant reused) + model/implementation correspondence + reference decoder oracle"},
-    "C08": {"text": "Lean theorems: the invariant Consistent (plain object: header, question, three lists of canonical record pieces with the section starts and counts that follow from them; cleared may-contain-pointers flag; question cache empty or right; EDNS summary = the one the additional pieces determine) implies that the bytes are accepted by the parser and that a fresh parse reports exactly the section starts and the EDNS summary (position and count of options, extended rcode, version, flags, payload size) the object holds; counts = numbers of records, absent start iff empty section, bytes pointer-free, cached question = uncached question. The invariant holds after decompression/recompute of any accepted packet and is preserved by insert (3 sections), delete (including the OPT record), set_rr_ttl, set_rr_ip, set_raw_name (after which the cursor still designates the record and next yields the one that followed) and the header setters; a successful object-level rename leaves exactly the view of a fresh parse. Sequences: run_inv over the script semantics of Theorems/C08Seq.lean (any finite list of open/next/close/delete/set-TTL/set-address/set-name/insert/header-setter/recompute operations satisfying the documented preconditions); by-design findings KF1-KF5 excluded by the preconditions. State-machine model (packet object + one cursor) of every mutator; after every operation of every script the real object's bytes, public fields, cache and cursor equal the model's, and the oracle re-derives the view from the bytes alone.",
+    "C08": {"text": "Lean theorems: the invariant Consistent (plain object: header, question, three lists of canonical record pieces with the section starts and counts that follow from them; cleared may-contain-pointers flag; question cache empty or right; EDNS summary = the one the additional pieces determine) implies that the bytes are accepted by the parser and that a fresh parse reports exactly the section starts and the EDNS summary (position and count of options, extended rcode, version, flags, payload size) the object holds; counts = numbers of records, absent start iff empty section, bytes pointer-free, cached question = uncached question. The invariant holds after decompression/recompute of any accepted packet and is preserved by insert (3 sections), delete (including the OPT record), set_rr_ttl, set_rr_ip, set_raw_name (after which the cursor still designates the record and next yields the one that followed) and the header setters; a successful object-level rename leaves exactly the view of a fresh parse. Sequences: run_total / run_inv over the script semantics of Theorems/C08Seq.lean: no allowed script panics and every one ends consistent (any finite list of open/next/close/delete/set-TTL/set-address/set-name/insert/header-setter/recompute operations satisfying the documented preconditions); by-design findings KF1-KF5 excluded by the preconditions. State-machine model (packet object + one cursor) of every mutator; after every operation of every script the real object's bytes, public fields, cache and cursor equal the model's, and the oracle re-derives the view from the bytes alone.",
             "note": NOTE, "technique": "Lean 4 proof (representation invariant incl. EDNS summary as a function of the pieces, preserved by every mutator) + step-wise model/implementation correspondence on operation scripts + reference decoder oracle"},
     "C09": {"text": 'Lean theorems on the piece-list representation of pointer-free objects: insert appends exactly the given record and raises only that count; delete removes exactly the record under the cursor and lowers only that count; set_rr_ttl / set_rr_ip replace exactly the TTL / address bytes of that record; set_raw_name replaces exactly its owner name for growing, shrinking and equal lengths; header setters touch bytes 0-3 only; everything else (other records and their order, question, other header fields, EDNS summary fields) is equal; on a still-flagged (possibly compressed) object the first set_raw_name/delete first turns it into the plain object of the canonical pieces with the cursor carried to the same record. Exclusions are the by-design findings KF1-KF5. Same scripts as C08: after every operation the decoded message must be the message before with exactly the specified change (abstract list operation on the decoded message).',
             "note": NOTE, "technique": 'Lean 4 proof (piece shape lemmas, replace/delete/insert on the piece lists, resize-then-write byte lemma, decompress-first step) + step-wise correspondence + abstract-message oracle'},
